@@ -59,6 +59,16 @@ type vfC15Rec struct {
 	perturb int            // 0 none, 1 yields, 2 yields+sleeps
 	chID    sync.Map       // channel pointer string -> sub id (filled after Subscribe returns)
 	adone   map[string]int // channel pointer string -> number of n.asyncdone hooks seen (synchronisation only)
+	ctl     *vfC15Sched    // controlled scheduling (perturb == 4): every logged line is a scheduling point
+}
+
+// pause is a scheduling point without a log line (used inside the harness's own polling loops).
+func (r *vfC15Rec) pause() {
+	if r.ctl != nil {
+		r.ctl.park()
+	} else {
+		runtime.Gosched()
+	}
 }
 
 func (r *vfC15Rec) asyncDone(ptr string) int {
@@ -81,6 +91,10 @@ func (r *vfC15Rec) emit(m map[string]any) int64 {
 		act = r.rnd.Intn(12)
 	}
 	r.mu.Unlock()
+	if r.ctl != nil {
+		r.ctl.park()
+		return s
+	}
 	switch {
 	case r.perturb == 3 && act < 4:
 		// delay injection: the goroutine stays where it is - often inside a critical section - long
@@ -158,14 +172,15 @@ type vfC15SubState struct {
 type vfC15Emit struct{ call, ret int64 }
 
 type vfC15Iter struct {
-	seed   int64
-	rec    *vfC15Rec
-	nev    map[string]int
-	emits  map[string][]vfC15Emit // per emitter, index n-1
-	eclose map[string]int64
-	subs   []*vfC15SubState
-	panics []string
-	mu     sync.Mutex
+	seed     int64
+	rec      *vfC15Rec
+	nev      map[string]int
+	emits    map[string][]vfC15Emit // per emitter, index n-1
+	eclose   map[string]int64
+	subs     []*vfC15SubState
+	panics   []string
+	mu       sync.Mutex
+	deadlock string // goroutine dump of a deadlock found under controlled scheduling
 }
 
 func (it *vfC15Iter) guard(where string) {
@@ -254,6 +269,11 @@ func (it *vfC15Iter) run(perturb int) bool {
 		}
 		ems[e] = em
 		it.emits[e] = make([]vfC15Emit, nev[e])
+	}
+	if perturb == 4 {
+		it.rec.perturb = 0
+		it.rec.ctl = newVfC15Sched(it.seed ^ 0x2545f491)
+		go it.rec.ctl.loop()
 	}
 	vfC15Cur.Store(it.rec)
 	defer vfC15Cur.Store(nil)
@@ -389,7 +409,7 @@ func (it *vfC15Iter) run(perturb int) bool {
 						case ev := <-out:
 							record(ev)
 						default:
-							runtime.Gosched()
+							it.rec.pause()
 						}
 					}
 				}
@@ -475,6 +495,18 @@ func (it *vfC15Iter) run(perturb int) bool {
 		subWG.Wait()
 		close(fin)
 	}()
+	if it.rec.ctl != nil {
+		select {
+		case <-fin:
+			it.rec.ctl.stop()
+			return true
+		case <-it.rec.ctl.doneCh: // the scheduler gave up: deadlock
+			it.deadlock = it.rec.ctl.Dead
+			return false
+		case <-time.After(60 * time.Second):
+			return false
+		}
+	}
 	select {
 	case <-fin:
 		return true
@@ -639,11 +671,16 @@ func TestVerifC15Stress(t *testing.T) {
 	kept := 0
 	for i := 0; i < iters; i++ {
 		it := &vfC15Iter{seed: vfh.Seed()*1000003 + int64(i)}
-		ok := it.run(i % 4)
+		ok := it.run(i % 5)
+		if !ok && it.deadlock != "" {
+			res.AddMismatch(vfh.Mismatch{Class: "deadlock", What: "controlled schedule reached a state in which no goroutine of the bus or the workload can run and the workload has not finished", Walk: i, Step: it.rec.ctl.Steps, Got: vfC15Trunc(it.deadlock, 12000), Cfg: map[string]any{"seed": it.seed, "perturb": 4}, Prefix: it.events()})
+			res.Count(1, 0)
+			return
+		}
 		if !ok {
 			buf := make([]byte, 1<<20)
 			n := runtime.Stack(buf, true)
-			res.AddMismatch(vfh.Mismatch{Class: "stall", What: "scenario did not finish within 20 s (possible deadlock)", Walk: i, Step: len(it.rec.evs), Got: vfC15Trunc(string(buf[:n]), 12000), Cfg: map[string]any{"seed": it.seed, "perturb": i % 4}})
+			res.AddMismatch(vfh.Mismatch{Class: "stall", What: "scenario did not finish within 20 s (possible deadlock)", Walk: i, Step: len(it.rec.evs), Got: vfC15Trunc(string(buf[:n]), 12000), Cfg: map[string]any{"seed": it.seed, "perturb": i % 5}})
 			res.Count(1, 0)
 			return // goroutines of the stalled scenario are still alive: stop here
 		}
@@ -657,7 +694,7 @@ func TestVerifC15Stress(t *testing.T) {
 		}
 		bad := it.check()
 		for _, b := range bad {
-			res.AddMismatch(vfh.Mismatch{Class: b[0], What: b[1], Walk: i, Step: -1, Cfg: map[string]any{"seed": it.seed, "perturb": i % 4}, Prefix: it.events()})
+			res.AddMismatch(vfh.Mismatch{Class: b[0], What: b[1], Walk: i, Step: -1, Cfg: map[string]any{"seed": it.seed, "perturb": i % 5}, Prefix: it.events()})
 		}
 		if tracePath != "" && (kept < traceKeep || len(bad) > 0) {
 			kept++
